@@ -345,7 +345,19 @@ async fn gen_proc(sim: &mut Sim, rng: &mut Prng, stats: &mut Stats, name: &str) 
                     stats.bump("op_rewrite_same_value");
                     let k = pick_key(rng, allow_mb);
                     let v = *rng.pick(VALUES);
-                    match rng.below(4) {
+                    match rng.below(6) {
+                        4 => {
+                            // TTL-marked entry replicated, then hard-deleted by the owner
+                            sim.set_with_ttl(n, k, v);
+                            full_handshake(sim, m, n);
+                            sim.delete(n, k);
+                        }
+                        5 => {
+                            sim.set(n, k, v);
+                            sim.delete_after_ttl(n, k);
+                            full_handshake(sim, m, n);
+                            sim.delete(n, k);
+                        }
                         0 => {
                             sim.set_with_ttl(n, k, v);
                             full_handshake(sim, m, n);
@@ -1897,6 +1909,23 @@ async fn gen_conv(sim: &mut Sim, rng: &mut Prng, stats: &mut Stats, name: &str) 
         sim.delete(o, "t2");
         sim.tick(kv_grace + 1).await;
         sim.gc(o);
+    }
+    if rng.chance(1, 5) && sim.nodes.len() >= 3 {
+        // a relay still holds the owner's top tombstone, the owner alone collected it, a third node
+        // is brought up to date by the owner (reset): what the relay then offers it ends with a
+        // tombstone at or below its watermark
+        stats.bump("conv_cases_relay_holds_collected_tombstone");
+        let o = rng.below(sim.nodes.len() as u64) as usize;
+        let r = (o + 1) % sim.nodes.len();
+        let j = (o + 2) % sim.nodes.len();
+        sim.set(o, "u1", "x");
+        sim.set(o, "u2", "y");
+        sim.delete(o, "u2");
+        full_handshake(sim, r, o);
+        sim.tick(kv_grace + 1).await;
+        sim.gc(o);
+        marked_handshake(sim, j, o);
+        marked_handshake(sim, j, r);
     }
     let nops = rng.range(8, 45);
     for _ in 0..nops {
